@@ -875,6 +875,25 @@ func (h *H) csv2Case() {
 	enc := []byte(string(delim))
 	replace := r.Chance(0.08)
 	p := h.genPlan()
+	// tail markers: the text that header / footer / line_pattern regexps look for sits in a LAST,
+	// additional field of the row - beyond every declared column index - so the patterns depend on
+	// fields no column reads (and on the row being kept whole while it is buffered)
+	tail := r.Chance(0.4)
+	toTail := func(q *pat) *pat {
+		if q == nil || !tail || !q.Prefix {
+			return q
+		}
+		return &pat{Suffix: r.Chance(0.6), Lit: q.Lit}
+	}
+	if tail {
+		for i := range p.decls {
+			p.decls[i].Header, p.decls[i].Footer = toTail(p.decls[i].Header), toTail(p.decls[i].Footer)
+		}
+		for i := range p.sel {
+			p.sel[i].LinePat = toTail(p.sel[i].LinePat)
+		}
+		h.sum.Hist("csv2-tail-markers")
+	}
 	// columns of the target declaration
 	ncols := r.Between(1, 5)
 	names := pickNames(r, ncols)
@@ -884,6 +903,9 @@ func (h *H) csv2Case() {
 		c := col2{Name: names[i], Sel: p.sel[r.Pick(len(p.sel))]}
 		if r.Chance(0.6) {
 			c.Index, c.Explicit = r.Between(1, 7), true
+			if tail {
+				c.Index = r.Between(1, 3)
+			}
 		} else {
 			c.Index = prev + 1
 		}
@@ -899,6 +921,10 @@ func (h *H) csv2Case() {
 		for k, tag := range in.tags {
 			w := r.Between(0, 6)
 			vals := [][]byte{[]byte(tag)}
+			if tail && tag != "" {
+				w = r.Between(3, 7)
+				vals = nil
+			}
 			for j := 0; j < w; j++ {
 				v := genField(r, enc, !replace, r.Chance(0.2))
 				if replace && needsQuote(enc, bytes.ReplaceAll(v, []byte{'"'}, []byte{'\''})) {
@@ -908,6 +934,9 @@ func (h *H) csv2Case() {
 			}
 			if long && ii == len(p.insts)/2 && k == 0 {
 				vals = append(vals, filler(r, r.Between(4000, 9000), enc))
+			}
+			if tail && tag != "" {
+				vals = append(vals, []byte(tag))
 			}
 			if replace && len(vals) == 1 && len(vals[0]) == 0 { // would be an empty line
 				vals = append(vals, []byte("v"))
@@ -1076,7 +1105,7 @@ func (h *H) fixedLines(p *plan, width int, long bool) (input []byte, nlines int,
 				}
 			}
 			input = append(input, joinUnits(us)...)
-			input = append(input, eol(r.Chance(0.3))...)
+			input = append(input, lineEOL(r, us, 0.3)...)
 			lastLen = len(joinUnits(us))
 			nlines++
 		}
@@ -1112,7 +1141,7 @@ func blankOrText(r *vh.Rng, width int) []unit {
 		}
 		return us
 	case k == 5:
-		return []unit{{'\t'}}
+		return [][]unit{{{'\t'}}, {{'\r'}}, {{'\r'}, {'\r'}}, {{' '}, {'\r'}}}[r.Pick(4)]
 	default:
 		us := genUnits(r, r.Between(1, width+3), r.Chance(0.3))
 		if r.Chance(0.3) { // leading blanks
@@ -1270,7 +1299,7 @@ func (h *H) fixed2AlignFamilies() {
 				us := append(tagUnits(fmt.Sprintf("%s%04d", tag, e)), genUnits(r, r.Between(10, 70), false)...)
 				in.lines = append(in.lines, lline{units: us})
 				body = append(body, joinUnits(us)...)
-				body = append(body, eol(r.Chance(0.2))...)
+				body = append(body, lineEOL(r, us, 0.2)...)
 				nlines++
 			}
 			if e == 0 {
